@@ -1,17 +1,15 @@
 #!/usr/bin/env python3
 """C20 extra stage: the concurrent facet (and a slice of the history/purity
-facets) under the Go race detector at several GOMAXPROCS values. Thorough tier
-only; the quick tier runs the same facets without the detector (results are
-compared across goroutines there, too)."""
+facets) under the Go race detector at several GOMAXPROCS values. The quick
+tier runs only the concurrent facet under the detector (about 3000 cases); the
+thorough tier runs five facets at three GOMAXPROCS values."""
 import argparse, hashlib, os, re, shutil, subprocess, sys, time
 
 ap = argparse.ArgumentParser()
 ap.add_argument("--tier"); ap.add_argument("--seed", type=int); ap.add_argument("--rundir")
 ap.add_argument("--bin"); ap.add_argument("--verif-root"); ap.add_argument("--jobs", type=int, default=16)
 a = ap.parse_args()
-if a.tier != "thorough":
-    print("EXTRA-NOTE race-detector stage runs in the thorough tier only")
-    sys.exit(0)
+quick = a.tier != "thorough"
 
 root = a.verif_root
 harness = os.path.join(root, "harness")
@@ -28,9 +26,14 @@ if r.returncode != 0:
     sys.exit(0)
 
 plan = [("race/shared-values", 6000), ("purity/repeat", 20000), ("history/set-copy", 3000), ("accessor/mutate", 5000), ("purity/stdlib", 5000)]
+gmps = (2, 4, 16)
+if quick:
+    # quick tier: the concurrent facet only, under the race detector
+    plan = [("race/shared-values", 1500)]
+    gmps = (2, 8)
 total = 0
 procs = []
-for gmp in (2, 4, 16):
+for gmp in gmps:
     for facet, n in plan:
         h = hashlib.sha256(("%d|%s|%d" % (a.seed, facet, gmp)).encode()).digest()
         seed = (int.from_bytes(h[:8], "big") & ((1 << 62) - 1)) or 1
@@ -72,4 +75,4 @@ for facet, gmp, n, wd, p in procs:
         for sf in glob.glob(os.path.join(wd, "*.stats.json")):
             total += json.load(open(sf)).get("evaluations", 0)
 print("EXTRA-EVAL %d 0" % total)
-print("EXTRA-NOTE race detector: %d cases over facets %s at GOMAXPROCS 2/4/16, no report" % (total, ",".join(f for f, _ in plan)))
+print("EXTRA-NOTE race detector: %d cases over facets %s at GOMAXPROCS %s, no report" % (total, ",".join(f for f, _ in plan), "/".join(str(g) for g in gmps)))
